@@ -13,7 +13,7 @@ from vlib import hexs
 VOC = [sym(";"), sym("("), sym(")"), sym(","), sym(":="), sym("=>"), sym("+"), sym("-"), sym("*"), kw("NOT"), kw("IF"), kw("THEN"),
        kw("ELSIF"), kw("ELSE"), kw("END_IF"), kw("FOR"), kw("TO"), kw("BY"), kw("DO"), kw("END_FOR"), kw("WHILE"), kw("END_WHILE"),
        kw("REPEAT"), kw("UNTIL"), kw("END_REPEAT"), kw("EXIT"), kw("RETURN"), ident("a"), ident("b"), lit("1"), lit("'s'"), kw("TRUE"),
-       kw("AND"), sym("<"), sym("."), sym("["), sym("]")]
+       kw("AND"), sym("<"), sym("."), sym("["), sym("]"), kw("CASE"), kw("OF"), kw("END_CASE"), sym(":"), sym(".."), lit("2")]
 
 
 def impl_tree(r):
